@@ -26,6 +26,39 @@ fn c14_flag_partition() {
     core::mem::forget(defs);
 }
 
+// A sliver of the FIRST sentence of C14 ("every mask prints as a label that parses back to the same
+// mask, under every set of flag names"): the two families of masks whose label contains no flag
+// NAME - so that neither direction consults the name maps (anything that operates on a BTreeMap is
+// out of CBMC's reach): the mask with every bit on ("*"), and the mask that is exactly the
+// default-on set (the empty label).  For every set of default-on flags.
+fn label_round_trip(default_enable: u8, mask: u8) {
+    let defs = defs_with_default_enable(default_enable);
+    let label = defs.mask_to_diff_label(BitSet32::from_mask(mask as u32));
+    let back = defs.parse_diff_string(sp!(&label.string[..]));
+    match back {
+        Ok(m) => assert!(m.value.mask() == mask as u32, "label parses back to a different mask"),
+        Err(d) => { core::mem::forget(d); assert!(false, "printed label does not parse"); },
+    }
+    core::mem::forget(label);
+    core::mem::forget(defs);
+}
+//@ C14 c14_label_all_bits quick default for every set of default-on flags, the mask with all eight bits set prints as a label ("*") that parses back to 0xFF
+#[kani::proof]
+#[kani::unwind(12)]
+#[kani::stub(alloc::fmt::format, crate::verif_common::stub_fmt_format)]
+fn c14_label_all_bits() {
+    let de: u8 = kani::any();
+    label_round_trip(de, 0xFF);
+}
+//@ C14 c14_label_default_on_only quick default for every set of default-on flags, the mask that is exactly the default-on set (no difficulty enabled, no flag disabled) prints as a label that parses back to the same mask
+#[kani::proof]
+#[kani::unwind(12)]
+#[kani::stub(alloc::fmt::format, crate::verif_common::stub_fmt_format)]
+fn c14_label_default_on_only() {
+    let de: u8 = kani::any();
+    label_round_trip(de, de);
+}
+
 #[cfg(kani)]
 #[path = "/verif/.cache/playback/diff_flags.rs"]
 mod playback;
